@@ -475,12 +475,11 @@ class PolygonTensor(PolytopeTensor):
         # ignore intersections of downward edges that end on the ray
         v1 = edges.array[..., 0, :]
         v2 = edges.array[..., 1, :]
-        v1_intersections = (v1[..., 1] <= v2[..., 1]) & is_multiple(
-            intersections.array, v1, atol=EQ_TOL_ABS, rtol=EQ_TOL_REL, axis=-1
-        )
-        v2_intersections = (v2[..., 1] <= v1[..., 1]) & is_multiple(
-            intersections.array, v2, atol=EQ_TOL_ABS, rtol=EQ_TOL_REL, axis=-1
-        )
+        # compare the actual y-coordinates of the vertices, not the homogeneous coordinates of their representatives
+        y1 = edges.normalized_array[..., 0, 1]
+        y2 = edges.normalized_array[..., 1, 1]
+        v1_intersections = (y1 <= y2) & is_multiple(intersections.array, v1, atol=EQ_TOL_ABS, rtol=EQ_TOL_REL, axis=-1)
+        v2_intersections = (y2 <= y1) & is_multiple(intersections.array, v2, atol=EQ_TOL_ABS, rtol=EQ_TOL_REL, axis=-1)
 
         result = edges.contains(intersections)
         result &= rays.contains(intersections)
